@@ -14,7 +14,8 @@ Semantics (``unroll``):
 
 Three implementations of the same definition are kept on purpose:
   ``unroll_python``  itertools.product over every assignment of every copy (the definition, literally);
-  ``unroll``         the same joint table held as one ndarray with one axis per copy (fast; used by the check);
+  ``unroll``         the same joint table held as ndarrays with one axis per copy, one array per independent
+                     component of the unrolled graph (fast; used by the check);
   ``unroll_nested``  top-down recursion over the plate nesting (needed for plate scales, which are not a property of
                      the flat joint table: the scale is an exponent of a plate's product,
                      value = (PROD_plate inner)^scale); raises ``Intractable`` when the graph is not a nesting.
@@ -111,50 +112,88 @@ def unroll_python(factors, sizes, elim_vars, elim_plates, semiring):
 # 2. the same joint table as one ndarray
 
 
-def unroll(factors, sizes, elim_vars, elim_plates, semiring):
-    """Returns (kept names sorted, ndarray over them)."""
+class TooBig(Exception):
+    """The unrolled joint table of one independent component would not fit (``unroll`` only)."""
+
+
+MAX_AXES = 22
+
+
+def unroll(factors, sizes, elim_vars, elim_plates, semiring, max_axes=MAX_AXES):
+    """Returns (kept names sorted, ndarray over them).
+
+    The unrolled graph (nodes = variable copies, hyper-edges = factor instances) is split into its connected
+    components; each component's joint table is built in full (one axis per copy, plus the kept names) and summed
+    over its copies; the component values are multiplied.  Raises TooBig if a component needs > max_axes axes."""
     _sum2, prod2, _pow, red, unit, _zero = SEMIRINGS[semiring]
     fnames = [tuple(n) for n, _ in factors]
     o = ordinals(fnames, elim_vars, elim_plates)
     kept = kept_names(fnames, elim_vars, elim_plates)
-    axis_of = {}
-    shape = []
-    for k in kept:
-        axis_of[("kept", k)] = len(shape)
-        shape.append(sizes[k])
-    for x in sorted(o):
-        ps = sorted(o[x])
-        for idx in itertools.product(*[range(sizes[p]) for p in ps]):
-            axis_of[(x, tuple(zip(ps, idx)))] = len(shape)
-            shape.append(sizes[x])
-    nd = len(shape)
-    if nd > 60:
-        raise MemoryError("joint table has too many axes")
-    joint = np.full(tuple(shape), unit, dtype=np.float64)
+    nk = len(kept)
+    kshape = tuple(sizes[k] for k in kept)
+    # instances: (array, [axis key per remaining dim]) ; copy keys are (x, ((plate, idx), ...))
+    instances = []
+    parent = {}
+
+    def find(a):
+        while parent[a] != a:
+            parent[a] = parent[parent[a]]
+            a = parent[a]
+        return a
+
     for names, arr in factors:
         arr = np.asarray(arr, dtype=np.float64)
         ps = [n for n in names if n in elim_plates]
         for idx in itertools.product(*[range(sizes[p]) for p in ps]):
             penv = dict(zip(ps, idx))
             index = tuple(penv[n] if n in penv else slice(None) for n in names)
-            inst = arr[index]
-            rest = [n for n in names if n not in penv]
-            axes = []
-            for n in rest:
+            keys = []
+            for n in names:
+                if n in penv:
+                    continue
                 if n in o:
-                    axes.append(axis_of[(n, tuple((q, penv[q]) for q in sorted(o[n])))])
+                    keys.append((n, tuple((q, penv[q]) for q in sorted(o[n]))))
                 else:
-                    axes.append(axis_of[("kept", n)])
-            # place inst's axes at `axes` of an nd-dimensional broadcastable view
+                    keys.append(("kept", n))
+            copies = [k for k in keys if k[0] != "kept"]
+            for c in copies:
+                parent.setdefault(c, c)
+            for c in copies[1:]:
+                ra, rb = find(copies[0]), find(c)
+                if ra != rb:
+                    parent[rb] = ra
+            instances.append((arr[index], keys, copies[0] if copies else None))
+    groups = {}
+    for inst in instances:
+        root = find(inst[2]) if inst[2] is not None else None
+        groups.setdefault(root, []).append(inst)
+    members = {}
+    for c in parent:
+        members.setdefault(find(c), []).append(c)
+    total = np.full(kshape, unit, dtype=np.float64)
+    for root in sorted(groups, key=lambda r: (r is not None, r)):
+        copies = sorted(members[root]) if root is not None else []
+        if nk + len(copies) > max_axes:
+            raise TooBig()
+        axis_of = {("kept", k): t for t, k in enumerate(kept)}
+        shape = list(kshape)
+        for c in copies:
+            axis_of[c] = len(shape)
+            shape.append(sizes[c[0]])
+        nd = len(shape)
+        joint = np.full(tuple(shape), unit, dtype=np.float64)
+        for inst, keys, _ in groups[root]:
+            axes = [axis_of[k] for k in keys]
             order = sorted(range(len(axes)), key=lambda t: axes[t])
             inst = np.transpose(inst, order) if order else inst
             view_shape = [1] * nd
             for t in order:
                 view_shape[axes[t]] = shape[axes[t]]
             joint = prod2(joint, inst.reshape(view_shape))
-    if nd > len(kept):
-        joint = red(joint, tuple(range(len(kept), nd)))
-    return kept, np.asarray(joint, dtype=np.float64)
+        if nd > nk:
+            joint = red(joint, tuple(range(nk, nd)))
+        total = prod2(total, joint)
+    return kept, np.asarray(total, dtype=np.float64)
 
 
 # ---------------------------------------------------------------------------
